@@ -202,7 +202,7 @@ func main() {
 	tier := fs.String("tier", "quick", "quick|thorough")
 	replay := fs.String("replay", "", "replay a recorded finding")
 	shards := fs.Int("shards", 16, "worker processes")
-	budget := fs.Duration("budget", 0, "internal wall-clock deadline per worker (default: 50s quick, 12m thorough)")
+	budget := fs.Duration("budget", 0, "internal wall-clock deadline per worker (default: 80s quick, 12m thorough)")
 	verbose := fs.Bool("v", false, "verbose")
 	repo := fs.String("repo", "/repo", "repository under verification")
 	fs.Parse(os.Args[2:])
@@ -232,7 +232,7 @@ func main() {
 		return
 	}
 	if *budget == 0 {
-		*budget = 50 * time.Second
+		*budget = 80 * time.Second
 		if *tier == "thorough" {
 			*budget = 12 * time.Minute
 		}
